@@ -119,10 +119,56 @@ var ncArgPool = []string{"running", "candidate", "startup", "<interfaces xmlns=\
 	"<a b=\"c\" xmlns:d=\"urn:d\"><d:e/></a>", "<cfg><empty></empty><ws>  </ws><t>é日本</t></cfg>", "/if:interfaces/if:interface[if:name='eth0']",
 	"<x><y attr=\"v\"> </y><z></z></x>", "<target><candidate xyz/></target>", "<!-- c --><q>1 &lt; 2 &amp; 3</q>", "label-1", "a<b", ""}
 
+// genXML: a random element tree for configuration payloads and subtree filters.  Names come from a
+// small set in which some names are prefixes of others (vlan / vlan-name, interface / interface-ref,
+// a / ab); children are empty pairs, whitespace-only pairs, self-closed elements with and without
+// attributes, text and nested elements -- the shapes the self-closing rewrite has to tell apart.
+var xmlNames = []string{"a", "ab", "a-b", "vlan", "vlan-name", "interface", "interface-ref", "config", "config-version", "x", "nc:y"}
+
+func genXML(r *sim.Rng, depth int) string {
+	n := r.Pick(xmlNames)
+	attrs := ""
+	if r.Chance(1, 3) {
+		attrs = " " + r.Pick([]string{"k=\"v\"", "nc:operation=\"delete\"", "xmlns:nc=\"urn:n\"", "a=\"1\" b=\"2\""})
+	}
+	switch r.Intn(7) {
+	case 0:
+		return "<" + n + attrs + "></" + n + ">"
+	case 1:
+		return "<" + n + attrs + ">" + r.Pick([]string{" ", "\n  ", "\t"}) + "</" + n + ">"
+	case 2:
+		return "<" + n + attrs + "/>"
+	case 3:
+		return "<" + n + attrs + ">" + r.Pick([]string{"text", "1", "é", "a b"}) + "</" + n + ">"
+	}
+	if depth <= 0 {
+		return "<" + n + attrs + "/>"
+	}
+	var sb strings.Builder
+	sb.WriteString("<" + n + attrs + ">")
+	k := 1 + r.Intn(3)
+	for i := 0; i < k; i++ {
+		// a child whose name extends the parent's name, self-closed with an attribute, in last position:
+		// over-represented on purpose
+		if i == k-1 && r.Chance(1, 3) {
+			sb.WriteString("<" + n + r.Pick([]string{"-name", "-ref", "b", "-version"}) + " " + r.Pick([]string{"k=\"v\"", "nc:operation=\"delete\""}) + "/>")
+			continue
+		}
+		sb.WriteString(genXML(r, depth-1))
+	}
+	sb.WriteString("</" + n + ">")
+	return sb.String()
+}
+
 func genNCOps(r *sim.Rng, n int, allowBad bool) []ncOp {
 	var ops []ncOp
 	for i := 0; i < n; i++ {
-		a := func() string { return r.Pick(ncArgPool) }
+		a := func() string {
+			if r.Chance(1, 3) {
+				return genXML(r, 2)
+			}
+			return r.Pick(ncArgPool)
+		}
 		ds := func() string { return r.Pick([]string{"running", "candidate", "startup"}) }
 		var o ncOp
 		switch r.Intn(12) {
